@@ -9,7 +9,13 @@ tgt=${COV_TARGET:-/tmp/s3v-cov-target}
 out=${COV_OUT:-/tmp/s3v-cov}
 tools=$(dirname $(find ~/.rustup/toolchains/nightly-x86_64-unknown-linux-gnu -name llvm-cov | head -1))
 rm -rf $out; mkdir -p $out/raw
-cd $root/harness
+# build from a copy of the harness so that a snapshot of the repository can be used (COV_REPO), e.g. while seeded changes
+# are being applied to /repo
+repo=${COV_REPO:-/repo}
+rm -rf /tmp/s3v-cov-harness; cp -r $root/harness /tmp/s3v-cov-harness; rm -rf /tmp/s3v-cov-harness/target
+sed -i "s#/repo/#$repo/#g" /tmp/s3v-cov-harness/Cargo.toml
+cd /tmp/s3v-cov-harness
+export S3V_REPO=$repo
 export CARGO_NET_OFFLINE=true
 RUSTFLAGS="--cfg s3s_verif -C instrument-coverage" CARGO_TARGET_DIR=$tgt cargo +nightly build --release --offline --bins 2>&1 | tail -2
 python3 - "$root" <<'PY' > $out/components.txt
@@ -52,6 +58,6 @@ def ranges(ns):
     if s is not None: out.append((s,p))
     return ','.join(f"{a}" if a==b else f"{a}-{b}" for a,b in out)
 for f in sorted(tot):
-    if '/repo/' not in f: continue
-    print(f"{f.replace('/repo/','')}: {hit[f]}/{tot[f]} lines; uncovered: {ranges(unc[f])[:600]}")
+    if '/crates/' not in f or '/.cargo/' in f: continue
+    print(f"{f[f.index('/crates/')+1:]}: {hit[f]}/{tot[f]} lines; uncovered: {ranges(unc[f])[:600]}")
 PY
